@@ -175,6 +175,7 @@ type W1Config struct {
 	Cache                                       gostatsd.CachedInstances
 	Viper                                       *viper.Viper
 	StatserType                                 string
+	Runnables                                   []gostatsd.Runnable
 }
 
 type W1 struct {
@@ -199,6 +200,7 @@ func StartW1(cfg W1Config) *W1 {
 	w := &W1{Cfg: cfg, Sock: NewSimSocket(), done: make(chan error, 1)}
 	s := &statsd.Server{
 		Backends:              cfg.Backends,
+		Runnables:             cfg.Runnables,
 		CachedInstances:       cfg.Cache,
 		DefaultTags:           cfg.DefaultTags,
 		ExpiryIntervalCounter: cfg.ExpCounter,
@@ -237,6 +239,19 @@ func StartW1(cfg W1Config) *W1 {
 func (w *W1) Stop() {
 	w.cancel()
 	<-w.done
+}
+
+// StopWithin cancels the server and waits at most d of simulated time for RunWithCustomSocket to
+// return (tickers inside the server keep the bubble from ever being reported as deadlocked, so a
+// shutdown that hangs on a missing callback must be bounded in simulated time).
+func (w *W1) StopWithin(d time.Duration) bool {
+	w.cancel()
+	select {
+	case <-w.done:
+		return true
+	case <-time.After(d):
+		return false
+	}
 }
 
 // Send delivers one datagram from client c to a parked reader; reports false if none is parked.
